@@ -53,11 +53,16 @@ TRUSTED PART 1 (additions to the tables of rs2lean.py / rs2lean2.py) -- semantic
  f(&a, &b, &mut x, &mut y);  (f : EvaluationFunction)   `let (x, y) ← f a b x y`
  for (w, f) in LIST { body; if c { break; } }   fold with an extra Bool `loop_break`: once it is set the remaining items leave
                                       the state unchanged.  `break` is supported in exactly this position.
- SEAMS (callees that are NOT translated here; the generated function takes them as the fields of a parameter
- `seams : EvalSeams`; the bridge theorems assume that they are the model's corresponding functions):
-   State::is_check(&self) -> bool, Board::colored_attacks(&self, Color) -> BitBoard,
-   Board::colored_pawn_attacks(&self, Color) -> BitBoard, MoveGenerator::compute_legal_moves(&State) (only `.is_empty()`
-   of the result is used: the seam is the emptiness test; `none` = the generator panics)
+ EXTERNS (callees translated by STAGE 3a, `tools/rs2lean3.py` -> `Wee/Gen/GenMoves.lean`, which the generated file imports):
+   Board::is_check(&self, Color) -> bool, Board::colored_attacks(&self, Color) -> BitBoard,
+   Board::colored_pawn_attacks(&self, Color) -> BitBoard, MoveGenerator::compute_legal_moves(&State) -> MoveSet
+                                      a DIRECT call of the stage-3a definition of the same (mangled) name, all `Panics ..`.
+                                      The Rust declarations are checked textually (`EXTERN_DECLS`), and the heads of the Lean
+                                      definitions are checked textually in the committed `Wee/Gen/GenMoves.lean` (`EXTERN_HEADS`);
+                                      Lean type-checks the calls.  (`State::is_check` itself is translated here.)
+ m.is_empty()  (m : MoveSet)          `Array.isEmpty m`: `MoveSet(Vec<MoveResult>)` is `Array MoveResult` in stage 3a; the declarations
+                                      `pub struct MoveSet(Vec<MoveResult>);` and `pub fn is_empty(&self) -> bool { self.0.is_empty() }`
+                                      are checked textually
 
 TRUSTED PART 2 (additions) -- primitive mappings
 ------------------------------------------------------------------------------------------------------
@@ -121,21 +126,32 @@ STRUCT_DECLS3 = [
     (EVAL, "Evaluator", {}, []),
 ]
 
-# callees that are not translated: parameters of the generated functions (fields of `EvalSeams`)
-#   key -> (field, lean type, [argument types], result type, panics)
+# callees translated by stage 3a (tools/rs2lean3.py -> Wee/Gen/GenMoves.lean): called directly by their generated name
+#   key -> (lean name, [argument types], result type, panics)
 SEAMS = {
-    ("method", "State", "is_check"): ("State_is_check", "State → Bool", [], "bool", False),
-    ("method", "Board", "colored_attacks"): ("Board_colored_attacks", "Board → Color → BitBoard", ["Color"], "BitBoard", False),
-    ("method", "Board", "colored_pawn_attacks"): ("Board_colored_pawn_attacks", "Board → Color → BitBoard", ["Color"], "BitBoard", False),
-    ("assoc", "MoveGenerator", "compute_legal_moves"):
-        ("MoveGenerator_compute_legal_moves_is_empty", "State → Panics Bool", ["State"], "LegalMoves", True),
+    ("method", "Board", "is_check"): ("Board.is_check", ["Color"], "bool", True),
+    ("method", "Board", "colored_attacks"): ("Board.colored_attacks", ["Color"], "BitBoard", True),
+    ("method", "Board", "colored_pawn_attacks"): ("Board.colored_pawn_attacks", ["Color"], "BitBoard", True),
+    ("assoc", "MoveGenerator", "compute_legal_moves"): ("MoveGenerator.compute_legal_moves", ["State"], "MoveSet", True),
 }
+MOVES = "weechess-core/src/moves.rs"
 SEAM_DECLS = [
-    (STATE, r"pub fn is_check\(&self\) -> bool \{", "State::is_check(&self) -> bool"),
+    (BOARD, r"pub fn is_check\(&self, color: Color\) -> bool \{", "Board::is_check(&self, Color) -> bool"),
     (BOARD, r"pub fn colored_attacks\(&self, color: Color\) -> BitBoard \{", "Board::colored_attacks(&self, Color) -> BitBoard"),
     (BOARD, r"pub fn colored_pawn_attacks\(&self, color: Color\) -> BitBoard \{", "Board::colored_pawn_attacks(&self, Color) -> BitBoard"),
     ("weechess-core/src/movegen.rs", r"pub fn compute_legal_moves\(state: &State\) -> MoveSet \{",
      "MoveGenerator::compute_legal_moves(&State) -> MoveSet"),
+    (MOVES, r"pub struct MoveSet\(Vec<MoveResult>\);", "struct MoveSet(Vec<MoveResult>)"),
+    (MOVES, r"pub fn is_empty\(&self\) -> bool \{\s*self\.0\.is_empty\(\)\s*\}", "MoveSet::is_empty = self.0.is_empty()"),
+]
+# heads of the stage-3a definitions the generated code calls (checked in the committed Wee/Gen/GenMoves.lean)
+GENMOVES = os.path.join(VERIF, "lean", "Wee", "Gen", "GenMoves.lean")
+EXTERN_HEADS = [
+    "def Board.is_check (self : Board) (color : Color) : Panics Bool := do",
+    "def Board.colored_attacks (self : Board) (color : Color) : Panics BitBoard := do",
+    "def Board.colored_pawn_attacks (self : Board) (color : Color) : Panics BitBoard := do",
+    "def MoveGenerator.compute_legal_moves (state : State) : Panics MoveSet := do",
+    "abbrev MoveSet := Array MoveResult",
 ]
 
 # `pub use evaluate_piece_worths::PIECE_PAWN_WORTHS;` in eval/mod.rs (checked textually, DECLS3)
@@ -159,6 +175,7 @@ CONTAINERS3 = [
     C(E_KING, [], None, "evaluate_force_king_to_edge", ["evaluate"], mod="evaluate_force_king_to_edge", complete=True),
     C(EVAL, [H("impl From<&State> for StateVariation")], "StateVariation", "StateVariation", ["from"], complete=True,
       trait=("from", "State")),
+    C(STATE, [H("impl State")], "State", "State", ["is_check"]),
     C(EVAL, [], None, "eval", [], mod="eval", consts=True, only_consts=["EVALUATORS"]),
     C(EVAL, [H("impl Evaluator")], "Evaluator", "Evaluator", ["estimate", "evaluate"], complete=True,
       skip={"just": "cfg(test) constructor `Self { fns }`"}),
@@ -187,8 +204,6 @@ def u8_min (a b : UInt8) : UInt8 := if a ≤ b then a else b
 /-- `Ord::clamp` on `i32`: panics when `lo > hi` -/
 def i32_clamp (x lo hi : Int32) : Panics Int32 :=
   if lo ≤ hi then some (if x < lo then lo else if x > hi then hi else x) else none
-/-- the result of `MoveGenerator::compute_legal_moves(state)`, of which only `.is_empty()` is used: the emptiness flag -/
-abbrev LegalMoves := Bool
 '''
 
 
@@ -253,8 +268,8 @@ def lean_ty3(t, atom=False):
         return "f32"
     if t == EVALFN_TY:
         return EVALFN_TY
-    if t == "LegalMoves":
-        return "LegalMoves"
+    if t == "MoveSet":
+        return "MoveSet"
     if isinstance(t, tuple) and t[0] == "closure":
         fail("a closure used as a value")
     return _lean_ty2(t, atom)
@@ -615,6 +630,17 @@ class Emitter3(R2.Emitter2):
             if re.search(r"\bf64\b", text):
                 fail(f"{rel}: `f64` appears in the file (only f32 arithmetic is modelled)")
 
+    def check_extern_heads(self):
+        """the stage-3a definitions called by name exist with the expected heads in the committed GenMoves.lean"""
+        try:
+            with open(GENMOVES) as f:
+                text = f.read()
+        except OSError as ex:
+            fail(f"cannot read {GENMOVES}: {ex}")
+        for head in EXTERN_HEADS:
+            if text.count("\n" + head + "\n") != 1:
+                fail(f"Wee/Gen/GenMoves.lean: `{head}` not found exactly once (the evaluator calls this stage-3a definition by name)")
+
     def collect_square_maps(self):
         text = re.sub(r"//[^\n]*", "", self.src[E_SQUARES])
         names = re.findall(r"const (\w+): ArrayMap<Square, i32> = ArrayMap::new\(\[", text)
@@ -673,19 +699,16 @@ class Emitter3(R2.Emitter2):
             self.cur.callees.append(fn)
             self.callsites.append((self.cur, fn, e))
             return fn.ret
-        if getattr(fn, "uses_seams_decl", False):
-            self.err(e, f"call of {fn.lean}, which takes the seams parameter, from another translated function")
         return super().call_fn(e, fn, args, env, recv=recv, typed=typed)
 
     def seam(self, e, key, recv, args, env):
-        field, lty, ptys, rty, panics = SEAMS[key]
+        field, ptys, rty, panics = SEAMS[key]
         if len(args) != len(ptys):
-            self.err(e, f"seam {field}: arity")
+            self.err(e, f"extern {field}: arity")
         for a, pt in zip(args, ptys):
             self.infer(a, env, pt)
         e.kind2 = "seam"
         e.seam = (field, ([recv] if recv is not None else []) + list(args), panics)
-        self.cur.uses_seams = True
         if key not in self.seams_used:
             self.seams_used.append(key)
         return rty
@@ -711,9 +734,9 @@ class Emitter3(R2.Emitter2):
             self.infer(e.args[1], env, rt)
             e.kind2 = "clamp"
             return rt
-        if rt == "LegalMoves" and n == "is_empty" and not e.args:
-            e.kind2 = "prim"
-            e.prim = ("{0}", [e.recv])
+        if rt == "MoveSet" and n == "is_empty" and not e.args:
+            e.kind2 = "prim"                             # `self.0.is_empty()` on `MoveSet(Vec<MoveResult>)` (checked textually)
+            e.prim = ("Array.isEmpty {0}", [e.recv])
             return "bool"
         if rt == "StateVariation" and (rt, n) not in self.methods:
             # `impl Deref for StateVariation { Target = State; self.state }` (checked textually)
@@ -1142,7 +1165,7 @@ class Emitter3(R2.Emitter2):
             return f"f32.to_i32 {P(self.ex(e.e, out, ind))}"
         if k in ("call", "mcall") and getattr(e, "kind2", None) == "seam":
             field, args, panics = e.seam
-            t = " ".join([f"seams.{field}"] + [P(self.ex(a, out, ind)) for a in args])
+            t = " ".join([field] + [P(self.ex(a, out, ind)) for a in args])
             return self.bind(out, ind, e.ty, t) if panics else t
         if k == "mcall" and getattr(e, "kind2", None) == "amindex_raw":
             a = self.ex(e.recv, out, ind)
@@ -1377,16 +1400,9 @@ class Emitter3(R2.Emitter2):
             elif e.k in ("letelse", "lettuple", "for"):
                 names += pat_vars(e.pat)
         for nm in names:
-            if nm in ("loop_break", "loop_item", "loop_state", "seams"):
+            if nm in ("loop_break", "loop_item", "loop_state"):
                 fail(f"{fn.file}: identifier {nm} clashes with generated names")
-        text = R2.Emitter2.emit_fn(self, fn)
-        if getattr(fn, "uses_seams", False):
-            head = f"def {fn.lean} "
-            if text.count(head) != 1:
-                fail(f"internal: head of {fn.lean}")
-            text = text.replace(head, f"def {fn.lean} (seams : EvalSeams) ")
-            text = text.replace(" -/\ndef ", "; `seams` = the callees that are not translated (see `EvalSeams`) -/\ndef ", 1)
-        return text
+        return R2.Emitter2.emit_fn(self, fn)
 
     def run3(self):
         self.check_decls3()
@@ -1397,21 +1413,14 @@ class Emitter3(R2.Emitter2):
             self.collect_structs()
             self.collect2()
             self.infer_all2()
-            for it in self.items:
-                if isinstance(it, Fn3) and it.uses_seams:
-                    it.uses_seams_decl = True
             self.order2()
             self.check_shifts()
         finally:
             R2.STRUCT_DECLS, R2.CONTAINERS2, R2.Parser2, R2.Fn2 = saved
-        for it in self.items:
-            if isinstance(it, Fn3) and it.uses_seams:
-                for (caller, callee, ce) in self.callsites:
-                    if callee is it:
-                        fail(f"{caller.lean} calls {it.lean}, which takes the seams parameter")
+        self.check_extern_heads()
         files = sorted({c["file"] for c in CONTAINERS3} | {d[0] for d in STRUCT_DECLS3})
         out = ["-- GENERATED by tools/rs2lean_eval.py from " + ", ".join(files) + "; do not edit.",
-               "import Wee.Gen.CoreFns",
+               "import Wee.Gen.GenMoves",
                "import Wee.Gen.EvalTables",
                "import Wee.Model.F32",
                "/-!",
@@ -1419,7 +1428,8 @@ class Emitter3(R2.Emitter2):
                "",
                "Every `def`/`structure` below the prelude is produced from the text of one Rust item; the prelude is the fixed,",
                "trusted vocabulary.  `Wee/Proofs/EvalFnsBridge.lean` proves these functions equal to the hand-written model",
-               "(`Wee/Model/Eval.lean`).  Functions of stages 1 and 2 (`Wee/Gen/MoveFns.lean`, `CoreFns.lean`) are used by name.",
+               "(`Wee/Model/Eval.lean`).  Functions of stages 1, 2 and 3a (`Wee/Gen/MoveFns.lean`, `CoreFns.lean`, `GenMoves.lean`) are",
+               "used by name.",
                "-/",
                "set_option linter.unusedVariables false",
                "namespace Wee.GenFns",
@@ -1441,15 +1451,6 @@ class Emitter3(R2.Emitter2):
                 out.append("the two `&mut` arguments are returned; `none` = panic -/")
                 out.append("abbrev EvaluationFunction := StateVariation → Color → Evaluation → Bool → Panics (Evaluation × Bool)")
                 out.append("")
-        out.append("/-- the callees of the evaluator that are NOT translated here (trusted seam: the bridge theorems assume that they are")
-        out.append("the model's corresponding functions; move generation and the attack maps are tied separately) -/")
-        out.append("structure EvalSeams where")
-        for key in SEAMS:
-            field, lty, ptys, rty, panics = SEAMS[key]
-            what = f"{key[1]}::{key[2]}" + ("(..).is_empty()" if rty == "LegalMoves" else "")
-            out.append(f"  /-- `{what}` -/")
-            out.append(f"  {field} : {lty}")
-        out.append("")
         out.append("/-! ## Translated items -/")
         out.append("")
         for it in self.items:
